@@ -41,5 +41,7 @@ def main : IO UInt32 := do
   let acc := st.acc
   for m in acc.out do
     IO.println m
+  for c in acc.classes do
+    IO.println s!"CLASS {c.1} count={c.2}"
   IO.println s!"SUMMARY lines={acc.lines} checked={acc.checked} disagree={acc.disagree} specfail={acc.specfail}"
   return 0
